@@ -1317,6 +1317,17 @@ theorem C04_set_value_joins_scalar_loop (a : AState) (h : CH) (n : Name) (v : Op
        .ok ()) :=
   specSetValue_joins a h n v y hv hitem hscal huniq
 
+/-- the two hypotheses of `C04_set_value_creates_scalar_loop` / `C04_set_value_joins_scalar_loop` about the documented state hold for
+    the abstraction of EVERY store satisfying `Inv` (so: of every reachable one): a loop is determined by (container, number), and the
+    loop number a container hands out next is not in use -/
+theorem C04_abs_loop_keys (d : Db) (hinv : Inv d) (y : ALoop) (hy : y ∈ (absS d).loops) :
+    ∀ z ∈ (absS d).loops, (z.cid == y.cid && z.num == y.num) = true → z = y :=
+  absS_keys_unique d hinv y hy
+
+theorem C04_abs_fresh_loop_num (d : Db) (hinv : Inv d) (cid : Nat) (c : ContainerRow)
+    (hc : (absS d).containers.find? (fun r => r.id == cid) = some c) : (absS d).findLoop cid c.nextLoopNum = none :=
+  absS_fresh d hinv cid c hc
+
 theorem C04_set_value_invalid_name (a : AState) (h : CH) (v : Option V) :
     specSetValue a h none v = (a, .error CIF_INVALID_ITEMNAME) ∧
     ∀ n : Name, n.valid = false → specSetValue a h (some n) v = (a, .error CIF_INVALID_ITEMNAME) :=
